@@ -1,6 +1,7 @@
 #!/bin/bash
 # tools/runseeded.sh [name-prefix...] : apply every seeded change to /repo in turn, run the checks that are
 # recorded as detecting it (quick tier), expect exit 1 with a VIOLATION line, undo. Writes seeded/RESULTS.txt.
+export VERIF_NO_EVIDENCE=1
 cd "$(dirname "$0")/.."
 out=seeded/RESULTS.txt; : > $out.tmp
 for d in seeded/M*; do
